@@ -1,5 +1,6 @@
 import Driver.CondOps
 import Driver.EncOps
+import Driver.SStrOps
 open Lean Driver
 
 def dispatch (op : String) (j : Json) : Except String Json :=
@@ -8,6 +9,11 @@ def dispatch (op : String) (j : Json) : Except String Json :=
   | "b64.case" => b64Case j
   | "wide.case" => wideCase j
   | "cidr.case" => cidrCase j
+  | "sstr.case" => sstrCase j
+  | "sstr.regex" => sstrRegex j
+  | "sstr.slice" => sstrSlice j
+  | "field.case" => fieldCase j
+  | "field.batch" => fieldBatch j
   | "ping" => pure (Json.mkObj [("pong", true)])
   | _ => throw s!"unknown op {op}"
 
